@@ -27,6 +27,13 @@ import (
 //       fresh process must succeed and deliver a prefix that contains every acknowledged AppendSync; and over the
 //       same log the fsync-ordering monitor: at the return of an AppendSync its bytes are written and fsynced.
 
+func c07FaultCases(tier string) int {
+	if tier == "thorough" {
+		return 400
+	}
+	return 24
+}
+
 func c07Sizes(tier string) (int, int) {
 	if tier == "thorough" {
 		return 20000, 160
@@ -39,9 +46,9 @@ func init() {
 		ID: "C07",
 		Meta: func(tier string) fw.Meta {
 			na, nb := c07Sizes(tier)
-			return fw.Meta{N: na + nb, Level: "fault_enumeration", Chunk: 20, CaseTimeoutS: 600, MinNT: 300,
-				Rule:        "(a) seeded programs of 1..80 Append/AppendSync/Rotate calls with records nil/empty/1..3x the file size limit, limits {9,64,1024,1MiB}, writer buffers {64,4096,default}, 4 compression types; a fresh Replay must deliver exactly the appended sequence (nil and empty both replay as empty/nil payloads of length 0). (b) WAL-only sessions under strace (64-byte or 4 KiB writer buffer so that buffer flushes cut records, records up to 1 KiB, forced and size-triggered rotations) with INV/ACK markers: crash image after every mutating system call; Replay in a fresh process must succeed and deliver a prefix of the appended sequence containing every AppendSync acknowledged before the image. (c) over the same log: between the invocation and the acknowledgement of every AppendSync at least one write reached a WAL file and at the acknowledgement the WAL file written last (the one that received the record) has no written-but-unsynced bytes. evaluations = programs + distinct images; non-trivial = program with a rotation and >=3 records / traced session with >=50 images",
-				MinObs:      map[string]int64{"programs_replayed": 1000, "rotations_size_triggered": 500, "rotations_forced": 300, "records_larger_than_limit": 200, "wal_sessions_traced": 4, "wal_images_replayed": 1500, "sync_appends_checked_for_fsync": 300, "wal_images_with_cut_record": 50},
+			return fw.Meta{N: na + nb + c07FaultCases(tier), Level: "fault_enumeration", Chunk: 20, CaseTimeoutS: 600, MinNT: 300,
+				Rule:        "(a) seeded programs of 1..80 Append/AppendSync/Rotate calls with records nil/empty/1..3x the file size limit, limits {9,64,1024,1MiB}, writer buffers {64,4096,default}, 4 compression types; a fresh Replay must deliver exactly the appended sequence (nil and empty both replay as empty/nil payloads of length 0). (b) WAL-only sessions under strace (64-byte or 4 KiB writer buffer so that buffer flushes cut records, records up to 1 KiB, forced and size-triggered rotations) with INV/ACK markers: crash image after every mutating system call; Replay in a fresh process must succeed and deliver a prefix of the appended sequence containing every AppendSync acknowledged before the image. (c) over the same log: between the invocation and the acknowledgement of every AppendSync at least one write reached a WAL file and at the acknowledgement the WAL file written last (the one that received the record) has no written-but-unsynced bytes. (d) programs whose appender meets a failing write(2) (RLIMIT_FSIZE lowered in a sub-process for 1..3 calls or as a per-file cap; EFBIG from the kernel through the real writers, nothing killed) and goes on appending, retrying and rotating: a fresh Replay must succeed and deliver the attempted appends minus failed ones, cut off at some point, with no nil-returning append missing before a delivered one and no acknowledged synchronous append missing at all. evaluations = programs + distinct images; non-trivial = program with a rotation and >=3 records / traced session with >=50 images",
+				MinObs:      map[string]int64{"programs_replayed": 1000, "rotations_size_triggered": 500, "rotations_forced": 300, "records_larger_than_limit": 200, "wal_sessions_traced": 4, "wal_images_replayed": 1500, "sync_appends_checked_for_fsync": 300, "wal_images_with_cut_record": 50, "wal_fault_programs": 300, "wal_fault_programs_with_a_failed_write": 150, "wal_rotations_attempted_after_a_failed_write": 100, "wal_failed_write_inside_a_record_larger_than_the_buffer": 5},
 				Assumptions: []string{"kill -9 model as in C02", "nil and empty records are not distinguished by the WAL's consumers (both have length 0)"},
 			}
 		},
@@ -49,6 +56,7 @@ func init() {
 	})
 	fw.RegisterSub("walsession", walSession)
 	fw.RegisterSub("walreplay", walReplay)
+	fw.RegisterSub("walfault", walFault)
 }
 
 func walOpts(dir string, limit uint64, wbuf, comp int) (*wal.Options, error) {
@@ -68,7 +76,11 @@ func recHash(b []byte) string {
 }
 
 func runC07(c *fw.Case) {
-	na, _ := c07Sizes(c.Tier)
+	na, nb := c07Sizes(c.Tier)
+	if c.Idx >= na+nb {
+		c07Fault(c, c.Idx-na-nb)
+		return
+	}
 	if c.Idx >= na {
 		c07Traced(c, c.Idx-na)
 		return
